@@ -25,3 +25,18 @@ VARIANTS += [
     M('C19', 'list-mode-fast-path-bypasses-filter', E(TC, "    def loadTestsFromTestCase(self, *args, **kwargs):\n        suite = unittest.TestLoader.loadTestsFromTestCase(self, *args,", "    def loadTestsFromTestCase(self, *args, **kwargs):\n        if self.check and hasattr(args[0], '_tagged'):\n            self.print(args[0].__name__)\n            return unittest.TestSuite()\n        suite = unittest.TestLoader.loadTestsFromTestCase(self, *args,"),
       rule='C19-LOADER', key='entry:loadTestsFromTestCase'),
 ]
+
+PYT = 'tdda/referencetest/referencepytest.py'
+TC2 = 'tdda/referencetest/referencetestcase.py'
+VARIANTS += [
+    M('C19', 'pytest-listing-keeps-tagged-when-both-options', E(PYT, "            if showtagged or not tagged:\n                items.remove(f)", "            if not (runtagged and tagged):\n                items.remove(f)"),
+      rule='C19-PYTABLE', key='--tagged=True,--istagged=True,tagged=True'),
+    M('C19', 'pytest-listing-prints-untagged', E(PYT, "            if tagged and showtagged:\n                if cls:", "            if showtagged:\n                if cls:"),
+      rule='C19-PYTABLE', key='tagged=False'),
+    M('C19', 'loader-chain-loses-list-mode', E(TC2, "    loader = (TaggedTestLoader(check) if tagged or check\n              else unittest.defaultTestLoader)",
+                                               "    if tagged:\n        loader = TaggedTestLoader(False)\n    elif check:\n        loader = TaggedTestLoader(True)\n    else:\n        loader = unittest.defaultTestLoader"),
+      rule='C19-CHECKMODE', key='loader-choice:tagged=True,check=True'),
+    M('C19', 'refactor-loader-chosen-by-if-chain', E(TC2, "    loader = (TaggedTestLoader(check) if tagged or check\n              else unittest.defaultTestLoader)",
+                                                     "    if tagged or check:\n        loader = TaggedTestLoader(check)\n    else:\n        loader = unittest.defaultTestLoader"), kind='refactor'),
+    M('C19', 'refactor-pytest-condition-demorgan', E(PYT, "            if showtagged or not tagged:\n                items.remove(f)", "            if not (tagged and not showtagged):\n                items.remove(f)"), kind='refactor'),
+]
